@@ -230,6 +230,7 @@ func (f *FibStrategyHashTable) FindNextHopsEnc(name enc.Name) []*FibNextHopEntry
 	verifBeforeRLock(&f.fibStrategyRWMutex, "fib.rlock")
 	f.fibStrategyRWMutex.RLock()
 	defer f.fibStrategyRWMutex.RUnlock()
+	verifReading(&f.fibStrategyRWMutex, "fib.read")
 
 	entry := f.findLongestPrefixMatchEnc(name)
 
@@ -262,6 +263,7 @@ func (f *FibStrategyHashTable) FindStrategyEnc(name enc.Name) enc.Name {
 	verifBeforeRLock(&f.fibStrategyRWMutex, "fib.rlock")
 	f.fibStrategyRWMutex.RLock()
 	defer f.fibStrategyRWMutex.RUnlock()
+	verifReading(&f.fibStrategyRWMutex, "fib.read")
 
 	entry := f.findLongestPrefixMatchEnc(name)
 
@@ -287,6 +289,7 @@ func (f *FibStrategyHashTable) InsertNextHopEnc(name enc.Name, nexthop uint64, c
 	verifBeforeWLock(&f.fibStrategyRWMutex, "fib.lock")
 	f.fibStrategyRWMutex.Lock()
 	defer f.fibStrategyRWMutex.Unlock()
+	verifMutating(&f.fibStrategyRWMutex, "fib.mut")
 
 	realEntry := f.insertEntryEnc(name)
 
@@ -311,6 +314,7 @@ func (f *FibStrategyHashTable) ClearNextHopsEnc(name enc.Name) {
 	verifBeforeWLock(&f.fibStrategyRWMutex, "fib.lock")
 	f.fibStrategyRWMutex.Lock()
 	defer f.fibStrategyRWMutex.Unlock()
+	verifMutating(&f.fibStrategyRWMutex, "fib.mut")
 
 	entry, ok := f.realTable[name.Hash()]
 	if ok {
@@ -325,6 +329,7 @@ func (f *FibStrategyHashTable) RemoveNextHopEnc(name enc.Name, nexthop uint64) {
 	verifBeforeWLock(&f.fibStrategyRWMutex, "fib.lock")
 	f.fibStrategyRWMutex.Lock()
 	defer f.fibStrategyRWMutex.Unlock()
+	verifMutating(&f.fibStrategyRWMutex, "fib.mut")
 
 	nameHash := name.Hash()
 	if _, ok := f.realTable[nameHash]; !ok {
@@ -351,6 +356,7 @@ func (f *FibStrategyHashTable) GetAllFIBEntries() []FibStrategyEntry {
 	verifBeforeRLock(&f.fibStrategyRWMutex, "fib.rlock")
 	f.fibStrategyRWMutex.RLock()
 	defer f.fibStrategyRWMutex.RUnlock()
+	verifReading(&f.fibStrategyRWMutex, "fib.read")
 	entries := make([]FibStrategyEntry, 0)
 	for _, v := range f.realTable {
 		if len(v.nexthops) > 0 {
@@ -367,6 +373,7 @@ func (f *FibStrategyHashTable) SetStrategyEnc(name enc.Name, strategy enc.Name) 
 	verifBeforeWLock(&f.fibStrategyRWMutex, "fib.lock")
 	f.fibStrategyRWMutex.Lock()
 	defer f.fibStrategyRWMutex.Unlock()
+	verifMutating(&f.fibStrategyRWMutex, "fib.mut")
 
 	realEntry := f.insertEntryEnc(name)
 	realEntry.strategy = strategy
@@ -377,6 +384,7 @@ func (f *FibStrategyHashTable) UnSetStrategyEnc(name enc.Name) {
 	verifBeforeWLock(&f.fibStrategyRWMutex, "fib.lock")
 	f.fibStrategyRWMutex.Lock()
 	defer f.fibStrategyRWMutex.Unlock()
+	verifMutating(&f.fibStrategyRWMutex, "fib.mut")
 
 	entry, ok := f.realTable[name.Hash()]
 	if ok {
@@ -390,6 +398,7 @@ func (f *FibStrategyHashTable) GetAllForwardingStrategies() []FibStrategyEntry {
 	verifBeforeRLock(&f.fibStrategyRWMutex, "fib.rlock")
 	f.fibStrategyRWMutex.RLock()
 	defer f.fibStrategyRWMutex.RUnlock()
+	verifReading(&f.fibStrategyRWMutex, "fib.read")
 	entries := make([]FibStrategyEntry, 0)
 	for _, v := range f.realTable {
 		if v.strategy != nil {
